@@ -16,6 +16,7 @@ Section Single.
   Variable acc : typ -> member -> bool -> bool.
   Variable narrow : typ -> member -> list member.
   Variable posof : var -> posn.
+  Variable isany : member -> bool.
 
   (* a member that matches is not changed by the positive narrowing
      (false only for an Any argument tested with exclude_any=False) *)
@@ -132,34 +133,40 @@ Section Single.
   Qed.
 
   Definition wrap (o : option rtype) : eret := match o with Some x => [Some x] | None => [None] end.
+  Definition ft_cons (ft : option varmap) : Prop := match ft with Some f => consistent f | None => True end.
 
   Definition stmt_ok (s : stmt) : Prop :=
     forall rho, rep rho ->
-      eval_stmt acc narrow posof rho s =
-      (wrap (fst (sem_stmt acc posof sigma s)), snd (sem_stmt acc posof sigma s)).
+      exists ft, eval_stmt acc narrow posof isany rho s =
+        (wrap (fst (sem_stmt acc posof sigma s)), snd (sem_stmt acc posof sigma s), ft) /\ ft_cons ft.
 
   Definition block_ok (b : block) : Prop :=
-    forall rho possible, rep rho ->
-      eval_block acc narrow posof rho b possible =
-      (map Some possible ++ wrap (fst (sem_block acc posof sigma b)), snd (sem_block acc posof sigma b)).
+    forall rho possible narrowed, rep rho -> consistent narrowed ->
+      exists ft, eval_block acc narrow posof isany rho b possible narrowed =
+        (map Some possible ++ wrap (fst (sem_block acc posof sigma b)), snd (sem_block acc posof sigma b), ft) /\ ft_cons ft.
 
   Lemma eval_stmt_if : forall rho c body orelse,
-    eval_stmt acc narrow posof rho (SIf c body orelse) =
+    eval_stmt acc narrow posof isany rho (SIf c body orelse) =
     match eval_cond acc narrow posof rho c with
     | (Some l, Some r) =>
-        let (r1, e1) := eval_block acc narrow posof (l ++ rho) body [] in
-        let (r2, e2) := eval_block acc narrow posof (r ++ rho) orelse [] in
-        (r1 ++ r2, e1 ++ e2)
-    | (Some l, None) => eval_block acc narrow posof (l ++ rho) body []
-    | (None, Some r) => eval_block acc narrow posof (r ++ rho) orelse []
-    | (None, None) => ([None], [])
+        let '(r1, e1, f1) := eval_block acc narrow posof isany (l ++ rho) body [] [] in
+        let '(r2, e2, f2) := eval_block acc narrow posof isany (r ++ rho) orelse [] [] in
+        (r1 ++ r2, e1 ++ e2, ft_unite (ft_join l f1) (ft_join r f2))
+    | (Some l, None) =>
+        let '(r1, e1, f1) := eval_block acc narrow posof isany (l ++ rho) body [] [] in (r1, e1, ft_join l f1)
+    | (None, Some r) =>
+        let '(r2, e2, f2) := eval_block acc narrow posof isany (r ++ rho) orelse [] [] in (r2, e2, ft_join r f2)
+    | (None, None) => ([None], [], Some [])
     end.
   Proof. reflexivity. Qed.
-  Lemma eval_block_cons : forall rho s b possible,
-    eval_block acc narrow posof rho (BCons s b) possible =
-    let (res, e) := eval_stmt acc narrow posof rho s in
-    if forallb is_some res then (map Some possible ++ res, e)
-    else let (res', e') := eval_block acc narrow posof rho b (possible ++ somes res) in (res', e ++ e').
+  Lemma eval_block_cons : forall rho s b possible narrowed,
+    eval_block acc narrow posof isany rho (BCons s b) possible narrowed =
+    let '(res, e, ft) := eval_stmt acc narrow posof isany rho s in
+    if forallb is_some res then (map Some possible ++ res, e, None)
+    else
+      let f := match ft with Some f => if is_nil (somes res) then [] else only_removals isany rho f | None => [] end in
+      let '(res', e', ft') := eval_block acc narrow posof isany (f ++ rho) b (possible ++ somes res) (f ++ narrowed) in
+      (res', e ++ e', ft').
   Proof. reflexivity. Qed.
   Lemma sem_stmt_if : forall c body orelse,
     sem_stmt acc posof sigma (SIf c body orelse) =
@@ -176,28 +183,37 @@ Section Single.
   Lemma block_single_all : (forall s, stmt_ok s) /\ (forall b, block_ok b).
   Proof.
     apply (stmt_block_ind stmt_ok block_ok); unfold stmt_ok, block_ok.
-    - intros rho Hr. reflexivity.
-    - intros r rho Hr. reflexivity.
-    - intros m rho Hr. reflexivity.
+    - intros rho Hr. eexists. split; [reflexivity|]. apply consistent_nil.
+    - intros r rho Hr. eexists. split; [reflexivity|]. exact I.
+    - intros m rho Hr. eexists. split; [reflexivity|]. apply consistent_nil.
     - (* SIf *) intros c body IHb orelse IHo rho Hr. rewrite eval_stmt_if, sem_stmt_if.
       pose proof (proj1 cond_single_all c rho Hr) as Hc.
       destruct (sem_cond acc posof sigma c).
-      + destruct Hc as [l [E Hl]]. rewrite E. rewrite (IHb (l ++ rho) [] (rep_app _ _ Hl Hr)). reflexivity.
-      + destruct Hc as [r [E Hrc]]. rewrite E. rewrite (IHo (r ++ rho) [] (rep_app _ _ Hrc Hr)). reflexivity.
-    - intros rho possible Hr. reflexivity.
-    - (* BCons *) intros s IHs b IHb rho possible Hr. rewrite eval_block_cons, sem_block_cons.
-      rewrite (IHs rho Hr). destruct (sem_stmt acc posof sigma s) as [[x|] e]; cbn [fst snd wrap].
-      + reflexivity.
-      + cbn [forallb is_some andb somes]. rewrite app_nil_r. rewrite (IHb rho possible Hr).
-        destruct (sem_block acc posof sigma b) as [r' e']. reflexivity.
+      + destruct Hc as [l [E Hl]]. rewrite E.
+        destruct (IHb (l ++ rho) [] [] (rep_app _ _ Hl Hr) consistent_nil) as [ft [Eb Hf]]. rewrite Eb.
+        eexists. split; [reflexivity|]. destruct ft as [f|]; simpl; auto. now apply consistent_app.
+      + destruct Hc as [r [E Hrc]]. rewrite E.
+        destruct (IHo (r ++ rho) [] [] (rep_app _ _ Hrc Hr) consistent_nil) as [ft [Eb Hf]]. rewrite Eb.
+        eexists. split; [reflexivity|]. destruct ft as [f|]; simpl; auto. now apply consistent_app.
+    - intros rho possible narrowed Hr Hn. eexists. split; [reflexivity|]. exact Hn.
+    - (* BCons *) intros s IHs b IHb rho possible narrowed Hr Hn. rewrite eval_block_cons, sem_block_cons.
+      destruct (IHs rho Hr) as [ft [Es Hf]]. rewrite Es.
+      destruct (sem_stmt acc posof sigma s) as [[x|] e]; cbn [fst snd wrap].
+      + eexists. split; [reflexivity|]. exact I.
+      + cbn [forallb is_some andb somes]. rewrite app_nil_r.
+        set (f := match ft with Some f => if @is_nil rtype [] then [] else only_removals isany rho f | None => [] end).
+        assert (Hcf : consistent f) by (destruct ft; apply consistent_nil).
+        destruct (IHb (f ++ rho) possible (f ++ narrowed) (rep_app _ _ Hcf Hr) (consistent_app _ _ Hcf Hn)) as [ft' [Eb Hf']].
+        rewrite Eb. destruct (sem_block acc posof sigma b) as [r' e']. cbn [fst snd].
+        eexists. split; [reflexivity|]. exact Hf'.
   Qed.
 
   Theorem evaluate_single : forall rho body dflt,
     rep rho ->
-    evaluate acc narrow posof rho body dflt = sem_evaluate acc posof sigma body dflt.
+    evaluate acc narrow posof isany rho body dflt = sem_evaluate acc posof sigma body dflt.
   Proof.
     intros rho body dflt Hr. unfold evaluate, sem_evaluate.
-    rewrite (proj2 block_single_all body rho [] Hr).
+    destruct (proj2 block_single_all body rho [] [] Hr consistent_nil) as [ft [E _]]. rewrite E.
     destruct (sem_block acc posof sigma body) as [[x|] e]; reflexivity.
   Qed.
 
